@@ -374,30 +374,46 @@ example : IntervalOK (1000 : Rat) (1/4) (scaleBound 1000 true 1 3 2) (scaleBound
 
 /-! ## 6. The callbacks answer for the design they are asked about -/
 
-/-- If the optimizer evaluates the objective first at every new design (and the objective gradient
-before the constraint Jacobians), every callback's answer was computed at the design in its
-argument. -/
-theorem C21_callbacks_pure {X : Type} (s : St X) (cs : List (Call X))
-    (h : ObjFirst s.model s.gcache cs) :
-    (run s cs).1 = cs.map Call.arg :=
-  run_pure s cs h
+/-- Anchored code: if the optimizer evaluates the objective first at every new design (and the
+objective gradient before the constraint Jacobians), every callback's answer was computed at the
+design in its argument. -/
+theorem C21_callbacks_pure {X : Type} [DecidableEq X] (v : Variant) (hv : v.noSync = true)
+    (s : St X) (cs : List (Call X)) (h : ObjFirst s.model s.gcache cs) :
+    (run v s cs).1 = cs.map Call.arg :=
+  run_pure v hv s cs h
 
 /-- Without that discipline (trust-constr in the installed scipy asks for the constraint Jacobian,
 the constraint value and the objective gradient at a new design *before* the objective) the
-callbacks are answered at the previous design. -/
+anchored callbacks answer for the previous design. -/
 theorem C21_callbacks_stale :
-    (run (⟨0, some 0⟩ : St Nat)
+    (run Variant.current (⟨0, some 0⟩ : St Nat)
         [Call.obj 1, Call.grad 1, Call.cgrad 2, Call.con 2, Call.grad 2, Call.obj 2]).1
       = [1, 1, 1, 1, 1, 2] ∧
       ¬ ObjFirst (0 : Nat) (some 0)
         [Call.obj 1, Call.grad 1, Call.cgrad 2, Call.con 2, Call.grad 2, Call.obj 2] := by
   decide +kernel
 
-/-- The model is left at the design of the last objective evaluation. -/
-theorem C21_model_left_at_last_objective {X : Type} (s : St X) (pre post : List (Call X)) (x : X)
+/-- Repaired code (callbacks run the model at their argument when it is elsewhere): pure for every
+call sequence. -/
+theorem C21_callbacks_pure_fixed {X : Type} [DecidableEq X] (v : Variant) (hv : v.noSync = false)
+    (s : St X) (cs : List (Call X)) : (run v s cs).1 = cs.map Call.arg :=
+  run_pure_fixed v hv s cs
+
+/-- Anchored code: the model is left at the design of the last objective evaluation ... -/
+theorem C21_model_left_at_last_objective {X : Type} [DecidableEq X] (v : Variant)
+    (hv : v.noSync = true) (s : St X) (pre post : List (Call X)) (x : X)
     (hpost : ∀ c ∈ post, ∀ y, c ≠ Call.obj y) :
-    (run s (pre ++ Call.obj x :: post)).2.model = x :=
-  run_final s pre post x hpost
+    (run v s (pre ++ Call.obj x :: post)).2.model = x :=
+  run_final v hv s pre post x hpost
+
+/-- ... which need not be the design the optimizer returns (COBYLA returns its best vertex):
+objective evaluated at 1, then at 2, design 1 returned. -/
+theorem C21_model_not_at_result :
+    (finish Variant.current (run Variant.current (⟨0, none⟩ : St Nat)
+      [Call.obj 1, Call.con 1, Call.obj 2, Call.con 2]).2 1).model = 2 ∧
+    (finish Variant.fixed (run Variant.fixed (⟨0, none⟩ : St Nat)
+      [Call.obj 1, Call.con 1, Call.obj 2, Call.con 2]).2 1).model = 1 := by
+  decide +kernel
 
 -- non-vacuity: the order SLSQP uses
 example : ObjFirst (0 : Nat) none
@@ -417,7 +433,8 @@ returned design, the returned design is within the supplied bounds, and the last
 evaluation was at the returned design.  Then (repaired loop, positive scalers) the model is left at
 the returned design, every element of every inequality constraint is within its *model-unit*
 bounds up to `tol / scaler`, and so is every design variable. -/
-theorem C21_success_feasible {X : Type} (v : Variant) (hv : v.rebind = false) (inf tol : K)
+theorem C21_success_feasible {X : Type} [DecidableEq X] (v : Variant) (hv : v.rebind = false)
+    (inf tol : K)
     (htol : 0 ≤ tol)
     -- constraints: size, model bounds, adder, scaler, model values at the returned design
     (cons : List (Nat × (Nat → K) × (Nat → K) × (Nat → K) × (Nat → K) × (Nat → K)))
@@ -429,18 +446,28 @@ theorem C21_success_feasible {X : Type} (v : Variant) (hv : v.rebind = false) (i
     -- design variables: scaled bounds and returned (scaled) value
     (dvs : List (K × K × K))
     -- callbacks issued by the optimizer
-    (s0 : St X) (xr : X) (pre post : List (Call X)) (hpost : ∀ c ∈ post, ∀ y, c ≠ Call.obj y)
+    (s0 : St X) (xr : X) (calls : List (Call X))
+    -- only the anchored glue needs the optimizer to evaluate the objective last at `xr`
+    (hlast : v.noFinalSync = true → v.noSync = true ∧ ∃ pre post,
+      calls = pre ++ Call.obj xr :: post ∧ ∀ c ∈ post, ∀ y, c ≠ Call.obj y)
     -- contract
     (hsat : ∀ q ∈ cons,
       let c := scaledCon inf q.1 q.2.1 q.2.2.1 q.2.2.2.1 q.2.2.2.2.1
       let g := fun j => (q.2.2.2.2.2 j + q.2.2.2.1 j) * q.2.2.2.2.1 j
       ∀ r ∈ oldRecords v inf c, recSat tol r.kind (confunc inf c g r))
     (hbnd : ∀ d ∈ dvs, boundSat tol (dvBound inf d.1 d.2.1) d.2.2) :
-    (run s0 (pre ++ Call.obj xr :: post)).2.model = xr ∧
+    (finish v (run v s0 calls).2 xr).model = xr ∧
       (∀ q ∈ cons, ∀ j, j < q.1 →
         IntervalOK inf (tol / q.2.2.2.2.1 j) (q.2.1 j) (q.2.2.1 j) (q.2.2.2.2.2 j)) ∧
       (∀ d ∈ dvs, IntervalOK inf tol d.1 d.2.1 d.2.2) := by
-  refine ⟨run_final s0 pre post xr hpost, ?_, ?_⟩
+  refine ⟨?_, ?_, ?_⟩
+  · unfold finish
+    cases hf : v.noFinalSync
+    · simp
+    · obtain ⟨hs', pre, post, hc, hpost⟩ := hlast hf
+      simp only [if_true]
+      rw [hc]
+      exact run_final v hs' s0 pre post xr hpost
   · intro q hq j hj
     obtain ⟨f1, f2, f3⟩ := hfin q hq j hj
     have hcov := (C21_dicts_cover v hv inf tol
